@@ -14,9 +14,9 @@ from .corpus import Def, R, T, Var
 from .exec import Agg, Cell, EngineError, Exec, Panic, Ref, SrcSlice, U, Violation, as_bv, bvv, s_and, s_not, simp
 from .joint import canon
 
-OPS = ['next', 'bump1', 'clone_ahead', 'morph_roundtrip', 'morph_next_back', 'spanned_step', 'bump_rest']
-OPS_STR = [0, 1, 2, 3, 4, 5]
-OPS_BYTES = [0, 1, 6, 2]
+OPS = ['next', 'bump1', 'clone_ahead', 'morph_roundtrip', 'morph_next_back', 'spanned_step', 'bump_rest', 'clone_from_other']
+OPS_STR = [0, 1, 2, 3, 4, 5, 7]
+OPS_BYTES = [0, 1, 6, 2, 7]
 
 HIST_EXTRA = '''
 pub mod hist {
@@ -30,7 +30,11 @@ pub mod hist {
     pub fn set_extras_a(l: &mut Lexer<'static, A>, v: usize) { l.extras = v; }
     pub fn extras_a(l: &Lexer<'static, A>) -> usize { l.extras }
     pub fn extras_b(l: &Lexer<'static, B>) -> usize { l.extras }
+    pub fn clone_from_a(dst: &mut Lexer<'static, A>, src: &Lexer<'static, A>) { dst.clone_from(src) }
+    pub fn spanned_clone_from_a(dst: &mut SpannedIter<'static, A>, src: &SpannedIter<'static, A>) { dst.clone_from(src) }
+    pub fn spanned_into_a(s: SpannedIter<'static, A>) -> Lexer<'static, A> { let l: &Lexer<'static, A> = &s; l.clone() }
     pub type C = super::hist_c::Tok;
+    pub fn clone_from_c(dst: &mut Lexer<'static, C>, src: &Lexer<'static, C>) { dst.clone_from(src) }
     pub fn set_extras_c(l: &mut Lexer<'static, C>, v: usize) { l.extras = v; }
     pub fn extras_c(l: &Lexer<'static, C>) -> usize { l.extras }
 }
@@ -148,6 +152,29 @@ def task_history(pl):
                 ro = ex.call_root(A + 'h_next', [lref])
                 if canon(ro) != canon(rc_) or canon(lex.val) != canon(c.val):
                     fail(f'clone and original diverge: clone {canon(rc_)} {canon(c.val)} vs original {canon(ro)} {canon(lex.val)}')
+                trace.append(canon(ro))
+            elif name == 'clone_from_other':
+                # Clone::clone_from into a lexer that was created over a *different* source (the empty prefix of the input):
+                # the receiver must become a copy of the argument, source included, and continue like it
+                before = canon(lex.val)
+                other = Cell(ex.call_root(A + 'h_new', [SrcSlice(0, 0, 0)]))
+                ex.call_root(H + 'set_extras_' + SFX, [Ref(other, ()), 7])
+                if not is_bytes and i % 2 == 1:
+                    # through SpannedIter::clone_from
+                    so = Cell(ex.call_root(H + 'spanned_a', [other.val]))
+                    sl_ = Cell(ex.call_root(H + 'spanned_a', [ex.call_root(A + 'h_clone', [lref])]))
+                    ex.call_root(H + 'spanned_clone_from_a', [Ref(so, ()), Ref(sl_, ())])
+                    other = Cell(ex.call_root(H + 'spanned_into_a', [so.val]))
+                else:
+                    ex.call_root(H + 'clone_from_' + SFX, [Ref(other, ()), lref])
+                if canon(lex.val) != before:
+                    fail('clone_from changed its argument')
+                if canon(other.val) != before:
+                    fail(f'after a.clone_from(&b) a differs from b: {canon(other.val)} vs {before}')
+                rc_ = ex.call_root(A + 'h_next', [Ref(other, ())])
+                ro = ex.call_root(A + 'h_next', [lref])
+                if canon(ro) != canon(rc_) or canon(lex.val) != canon(other.val):
+                    fail(f'clone_from copy and original diverge: copy {canon(rc_)} {canon(other.val)} vs original {canon(ro)} {canon(lex.val)}')
                 trace.append(canon(ro))
             elif name == 'morph_roundtrip':
                 before = lexer_state(ex, lex)
